@@ -7,6 +7,20 @@ import json, os, subprocess
 ROOT = os.path.dirname(os.path.dirname(os.path.abspath(__file__)))
 
 CHECKS = {
+    "C06": dict(cat="exploration", sec="5 C06",
+                tech="runtime monitor: generator-known admission reference model vs real dag.State (production verifiers, didstore-backed kid resolution); byte-level store snapshots; hook-steered concurrent histories checked with porcupine; race detector",
+                text="Real dag.State on bbolt with the previous-transactions and signature verifiers, kid resolution through dag.SourceTXKeyResolver over a real didstore (documents with key rotation), five persistent subscribers. "
+                     "Generated valid DAGs (chain/fan/diamond/random, private, ES384/ES512/PS256 signers, clocks over 512/1024) and ~155 hostile variant classes (headers removed/retyped/duplicated, alg, JSON serialisations, kid/jwk, rotation, prevs, lc, "
+                     "sigt/ver, payload, second root, bit flips, compact re-encodings) are offered in perturbed orders. After every offer: Add/Parse verdict vs the model, presence, byte dump of every bucket, XOR/IBLT/head and receiver-call delta: "
+                     "refused or re-submitted items change nothing and notify nobody; admitted ones are stored as offered and notified at most once. Concurrent same/sibling submissions steered at the Add hooks are checked against a set-of-refs model with porcupine.",
+                note="Reference model is computed from what the generator built (never by re-parsing with the code under test); injected write faults are C08's; kid transactions only in sequential histories."),
+    "C15": dict(cat="exploration", sec="5 C15",
+                tech="runtime monitor: taint scan of every envelope handed to Connection.Send by real v2 protocol instances + payload-store diff after every inbound message; real tlsAuthenticator cases",
+                text="Four real v2 protocol instances over real dag.States with real PAL encryption/decryption (node DID present / key missing / no node DID / rotated key), peers of seven kinds (anonymous, unauthenticated claiming a DID, "
+                     "authenticated listed / unlisted / outsider / own DID). Every query and response type for every public and private transaction, 16 inbound TransactionPayload variants, TransactionList flows and gossip ticks. "
+                     "Each private payload is a unique marker: no captured envelope may contain it (raw/hex/base64) unless it is a TransactionPayload to an authenticated peer on the decrypted list sent by a listed node; list/range/gossip never carry "
+                     "payloads of PAL transactions; the payload shelf is diffed after every inbound message (a new entry must hash to the payload hash of a transaction already in the DAG). 32 certificate/DID-document cases for the real authenticator.",
+                note="Handlers are driven synchronously through the verif export shim (production goroutine fan-out not exercised); DID-document resolver is an environment fake."),
     "C17": dict(cat="exploration", sec="5 C17",
                 tech="runtime monitor: one hostile JOSE/LD-proof variant generator applied to valid tokens of seven real consumers; accept => independently re-verified single asymmetric signature by the mandated key",
                 text="One generator (23 variant classes: alg none/HS*/other family/other curve, signature removed/truncated/DER, JSON serialisation with 0/1/2 signatures or unprotected headers, injected jwk/jku/x5c/x5u "
